@@ -23,7 +23,7 @@ FUNCTIONS = ["ConstrainedFrontend.merge", "ConstrainedFrontend.combine", "Constr
 TRUSTED = _rtc.RTC_TRUSTED + ["contract of claripy.And / claripy.Or (C01): pointwise conjunction / disjunction",
                               "contract of the stack below ModelCacheMixin for combine/split (what the first five obligations prove of ConstrainedFrontend)"]
 ASSUMPTIONS = ["the code is parametric in the constraint language: universe of 4 assignments; up to 3 solvers with up to 2 constraints each; variables from {a, b, c}",
-               "CompositeFrontend.merge/combine/split and HybridFrontend.merge/combine/split are covered by the bounded part only",
+               "CompositeFrontend.merge is proved (composite.merge/*, shared with C12), CompositeFrontend.split under C12, HybridFrontend.merge/combine/split under C13; CompositeFrontend.combine (inherited) is covered by the bounded part only",
                "per-method contracts compose to histories by induction (stated, not mechanised)"]
 
 
@@ -35,5 +35,7 @@ def tasks(tier, seed=0):
            task(M, "ob_split", "frontend._split_constraints/partition", ["C15", "C12"], via="_split_constraints", tier=tier),
            task(M, "ob_mc_combine", "mixin.ModelCacheMixin.combine/cached-models-valid", ["C15", "C11", "C26"], tier=tier),
            task(M, "ob_mc_split", "mixin.ModelCacheMixin.split/cached-models-valid", ["C15", "C11"], tier=tier)]
+    for sh in range(3):
+        out.append(task("vf.contracts.composite", "ob_composite_merge", f"composite.merge/rep+model-set@ancestor-children={'+'.join([['a'], ['a', 'b'], ['ab', 'c']][sh])}", ["C12", "C15"], shape=sh, tier=tier))
     out.append(task("vf.contracts.canaries", "ob_canaries", "harness.canaries/wrong-methods-are-noticed", ["C03", "C11", "C12", "C13", "C15"], tier=tier))
     return out + _rtc.rtc_tasks("C15", tier, seed)
